@@ -196,6 +196,9 @@ fn cfg_pk() {
     });
     let h2 = thread::spawn(move || {
         let ok = r2.try_grow(4).is_ok();
+        // 4 (own) + 6 > 8 whatever the other thread does: must be refused and must change nothing
+        let refused = r2.try_grow(6).is_err();
+        assert!(refused, "growth beyond the limit granted");
         (ok, r2)
     });
     let (ok1, r1) = h1.join().unwrap();
